@@ -28,6 +28,8 @@ struct DSpec {
     help: String,
     consts: BTreeMap<String, String>,
     vars: BTreeSet<String>,
+    /// the variable labels are listed in descending instead of ascending order (no part of identity or signature)
+    rev: bool,
 }
 
 type IdKey = (String, Vec<String>);
@@ -40,9 +42,16 @@ impl DSpec {
     fn sig(&self) -> Sig {
         (self.help.clone(), self.consts.keys().cloned().collect(), self.vars.clone())
     }
+    fn var_list(&self) -> Vec<String> {
+        if self.rev {
+            self.vars.iter().rev().cloned().collect()
+        } else {
+            self.vars.iter().cloned().collect()
+        }
+    }
     fn desc(&self) -> Desc {
         let cm: HashMap<String, String> = self.consts.iter().map(|(k, v)| (k.clone(), v.clone())).collect();
-        Desc::new(self.name.clone(), self.help.clone(), self.vars.iter().cloned().collect(), cm).unwrap()
+        Desc::new(self.name.clone(), self.help.clone(), self.var_list(), cm).unwrap()
     }
 }
 
@@ -129,11 +138,12 @@ fn gen_dspec(src: &mut Src) -> DSpec {
     }
     let mut vars = BTreeSet::new();
     for vn in VNAMES {
-        if src.chance(50) {
+        if src.chance(80) {
             vars.insert(vn.to_string());
         }
     }
-    DSpec { name, help, consts, vars }
+    let rev = vars.len() >= 2 && src.chance(128);
+    DSpec { name, help, consts, vars, rev }
 }
 
 /// A descriptor that shares the name (and usually the signature) of `base` but differs in a
@@ -149,6 +159,10 @@ fn sibling(src: &mut Src, base: &DSpec) -> DSpec {
     }
     if src.chance(40) {
         d.help = src.pick(HELPS).to_string();
+    }
+    if d.vars.len() >= 2 && src.chance(128) {
+        // the same variable label names, listed the other way round
+        d.rev = !d.rev;
     }
     d
 }
@@ -193,7 +207,8 @@ fn make_coll(src: &mut Src, pool: &[Coll], tag: f64, rep: &mut Report) -> Coll {
             for (k, v) in &s.consts {
                 o = o.const_label(k.clone(), v.clone());
             }
-            let names: Vec<&str> = s.vars.iter().map(|x| x.as_str()).collect();
+            let listed = s.var_list();
+            let names: Vec<&str> = listed.iter().map(|x| x.as_str()).collect();
             let c = CounterVec::new(o, &names).unwrap();
             let vals: Vec<&str> = names.iter().map(|_| "x").collect();
             c.with_label_values(&vals).inc_by(tag);
@@ -433,7 +448,7 @@ impl Property for C06 {
     }
     fn rule(&self) -> &'static str {
         "case = pool of 3-7 collectors (Counter, CounterVec, custom single- and multi-descriptor collectors) over overlapping pools \
-         of 3 names, 2 help texts, 2 constant-label names x 2 values, 2 variable-label names, later collectors derived from earlier \
+         of 3 names, 2 help texts, 2 constant-label names x 2 values, 2 variable-label names (listed in ascending or descending order; a sibling may list them the other way round), later collectors derived from earlier \
          ones (equal / sibling with another constant value / other help), in 2% of cases on top of 50-550 registered background \
          collectors; then a history of 4-30 register/unregister/gather calls. \
          Oracles: (1) reference model of admission (identity keys, per-name signatures of everything ever registered), error kind \
@@ -484,7 +499,7 @@ impl Property for C06 {
         let mut accepted: Vec<(bool, usize)> = vec![];
         if src.chance(5) {
             for k in 0..(50 + src.below(500)) {
-                let spec = DSpec { name: format!("bulk_{}", (k * 7919 + 13) % 10007), help: "h".into(), consts: BTreeMap::new(), vars: BTreeSet::new() };
+                let spec = DSpec { name: format!("bulk_{}", (k * 7919 + 13) % 10007), help: "h".into(), consts: BTreeMap::new(), vars: BTreeSet::new(), rev: false };
                 let c = Counter::with_opts(Opts::new(spec.name.clone(), spec.help.clone())).unwrap();
                 let idx = pool.len();
                 c.inc_by((idx + 1) as f64);
